@@ -89,9 +89,17 @@ func (sc *scenario) in(c int, kind string, src, dst int) bool {
 	return i >= 0 && sc.place[c][i]
 }
 
-func genScenario(p *prng.R, tag string) *scenario {
+// genScenario draws a scenario. With focus set, the draw concentrates on what the lazy
+// initialisation has to get right: checks referenced from (several) destination blocks with
+// differing co-members, verdicts at the connection/sender stage of such checks (these stages are
+// REPLAYED when the first recipient routed to the block arrives) and recipients interleaved
+// across the blocks.
+func genScenario(p *prng.R, tag string, focus bool) *scenario {
 	sc := &scenario{tag: tag}
 	sc.k = p.Weighted([]int{0, 2, 4, 3, 3})
+	if focus {
+		sc.k = p.Range(2, 4)
+	}
 	sc.nSrc = p.Range(1, 2)
 	sc.nTargets = p.Range(1, 3)
 	for t := 0; t < sc.nTargets; t++ {
@@ -105,7 +113,7 @@ func genScenario(p *prng.R, tag string) *scenario {
 			sc.slots = append(sc.slots, slot{"source", s, -1})
 		}
 		nd := 1
-		if p.Chance(3, 4) {
+		if focus || p.Chance(3, 4) {
 			nd = 3
 		}
 		sc.nDst = append(sc.nDst, nd)
@@ -126,11 +134,17 @@ func genScenario(p *prng.R, tag string) *scenario {
 		sc.sender = "sender@z.example"
 	}
 	nr := p.Range(1, 3)
+	if focus {
+		nr = p.Range(2, 3)
+	}
 	doms := []string{"d0.example", "d1.example", "other.example"}
 	for i := 0; i < nr; i++ {
 		d := p.Intn(sc.nDst[sc.sel])
 		if sc.nDst[sc.sel] == 1 {
 			d = 0
+		}
+		if focus && i == 1 && d == sc.rcptDst[0] {
+			d = (d + 1 + p.Intn(2)) % 3 // the second recipient goes to another block
 		}
 		sc.rcptDst = append(sc.rcptDst, d)
 		dom := doms[d]
@@ -150,6 +164,14 @@ func genScenario(p *prng.R, tag string) *scenario {
 	for c := 0; c < sc.k; c++ {
 		sc.place[c] = make([]bool, len(sc.slots))
 		n := p.Weighted([]int{0, 5, 3, 1})
+		if focus && p.Chance(5, 6) {
+			// destination blocks of the selected source block only, 1-3 distinct ones
+			perm := p.Perm(3)
+			for _, d := range perm[:p.Weighted([]int{0, 4, 4, 2})] {
+				sc.place[c][sc.slotIndex("destination", sc.sel, d)] = true
+			}
+			continue
+		}
 		for j := 0; j < n; j++ {
 			if p.Chance(5, 6) {
 				sc.place[c][prng.Pick(p, onPath)] = true
@@ -162,13 +184,17 @@ func genScenario(p *prng.R, tag string) *scenario {
 	pick := func() verdict {
 		return verdict(p.Weighted([]int{12, 3, 4, 3}))
 	}
+	pickEarly := pick
+	if focus {
+		pickEarly = func() verdict { return verdict(p.Weighted([]int{8, 2, 3, 4})) }
+	}
 	sc.conn = make([]verdict, sc.k)
 	sc.snd = make([]verdict, sc.k)
 	sc.body = make([]verdict, sc.k)
 	sc.rcptV = make([][]verdict, sc.k)
 	sc.override = make([]bool, sc.k)
 	for c := 0; c < sc.k; c++ {
-		sc.conn[c], sc.snd[c], sc.body[c] = pick(), pick(), pick()
+		sc.conn[c], sc.snd[c], sc.body[c] = pickEarly(), pickEarly(), pick()
 		sc.override[c] = p.Chance(1, 3)
 		for range sc.rcpts {
 			sc.rcptV[c] = append(sc.rcptV[c], pick())
@@ -959,10 +985,20 @@ func TestVerif(t *testing.T) {
 	defer r.Close()
 
 	n := r.N(400, 15000)
-	for i := 0; i < n; i++ {
-		r.Run(i, fmt.Sprintf("placement-%d", i), func(c *rep.Case) {
+	nFocus := r.N(300, 10000) // group S: shared destination checks, replayed-stage verdicts
+	for ci := 0; ci < n+nFocus; ci++ {
+		i, focus, id := ci, false, fmt.Sprintf("placement-%d", ci)
+		if ci >= n {
+			i, focus, id = groupS+ci-n, true, fmt.Sprintf("shared-destination-checks-%d", ci-n)
+		}
+		r.Run(i, id, func(c *rep.Case) {
 			p := prng.New(r.Seed(), uint64(i), "c06")
-			sc := genScenario(p, fmt.Sprintf("c06a%d", i))
+			tag := fmt.Sprintf("c06a%d", i)
+			if focus {
+				tag = fmt.Sprintf("c06s%d", i-groupS)
+				r.Count("focus_cases_shared_destination_checks", 1)
+			}
+			sc := genScenario(p, tag, focus)
 			sc.normalise()
 			e := sc.model()
 			perms := permutations(sc.k)
@@ -1034,7 +1070,7 @@ func TestVerif(t *testing.T) {
 					c.Violation("ignore-changes-outcome", fmt.Sprintf("with the ignore verdicts replaced by no verdict the outcome is %q, with them %q", v, runs[0].Vec), w)
 				}
 			}
-			if i < 3 {
+			if i < 3 || (focus && i < groupS+2) {
 				r.Sample(sc.describe())
 			}
 			nontrivial := stagesOf(sc, func(v verdict) bool { return v != vNone }) != ""
